@@ -493,8 +493,7 @@ def discharge(cl, sp, timeout_s):
             # false under this path: is the path itself feasible? (it is: the path manager checked)
             return dict(status="refuted", backend="normaliser", seconds=time.time() - t0, detail="clause is false on this path",
                         model=None)
-        goal = sp.tr.bool(c)
-        return _solve(sp, goal, t0, timeout_s)
+        return _solve(sp, [c], t0, timeout_s)
     # eq
     sa, sb = shape_of(cl.a), shape_of(cl.b)
     fa, fb = flat_items(cl.a), flat_items(cl.b)
@@ -523,18 +522,15 @@ def discharge(cl, sp, timeout_s):
     if not diffs:
         return dict(status="proved", backend="normaliser", seconds=time.time() - t0, detail="")
     # non-identical normal forms: the solver decides under requires / path condition / definitions
-    conj = []
-    for pa, d in diffs[:400]:
-        if isinstance(d, (SymBool, bool)):
-            conj.append(sp.tr.bool(d))
-        elif d.has_i():
-            conj.append(sp.tr.poly(d.real.n) == 0 if d.real.d is None else sp.tr.sym(d.real) == 0)
-            conj.append(sp.tr.poly(d.imag.n) == 0 if d.imag.d is None else sp.tr.sym(d.imag) == 0)
-        else:
-            conj.append(sp.tr.poly(d.n) == 0)
     if len(diffs) > 400:
         return dict(status="unknown", backend="z3", seconds=time.time() - t0, detail=f"{len(diffs)} differing entries")
-    r = _solve(sp, z3.And(conj), t0, timeout_s)
+    conj = []
+    for pa, d in diffs:
+        if isinstance(d, (SymBool, bool)):
+            conj.append(d)
+        else:
+            conj.append(SC.compare("==", d))
+    r = _solve(sp, conj, t0, timeout_s)
     r["diff"] = f"{diffs[0][0]}: {diffs[0][1]!r}"[:300]
     r["ndiff"] = len(diffs)
     return r
@@ -549,8 +545,41 @@ def _squeeze(s):
     return tuple(x for x in s if x != 1)
 
 
-def _solve(sp, goal, t0, timeout_s):
+def _hyps_sb(sp):
+    """the hypotheses of the current path as symbolic booleans (so they can be re-translated)"""
+    out = [r for r in sp.requires if r is not True]
+    for b, d in sp.decisions_log:
+        out.append(b if d else SC.bnot(b))
+    for b, _ in sp.library:
+        out.append(b)
+    for den in sp.side_conditions:
+        if not den.has_i():
+            out.append(SC.bnot(SC.compare("==", den)))
+    return out
+
+
+def _solve(sp, goals, t0, timeout_s):
+    """goals: list of SymBool (conjunction).  1) term-abstracted proof attempt (sound for proving only)
+    2) exact query (z3, then cvc5 / z3-4.8)."""
+    goals = [g for g in goals if g is not True]
+    if any(g is False for g in goals):
+        return dict(status="refuted", backend="normaliser", seconds=time.time() - t0, detail="clause is false on this path",
+                    model_env=None)
+    if not goals:
+        return dict(status="proved", backend="normaliser", seconds=time.time() - t0, detail="")
+    hyps_sb = _hyps_sb(sp)
+    try:
+        tr = P.Z3Tr(abstract=True)
+        hy = [tr.bool(h) for h in hyps_sb]
+        gl = z3.And([tr.bool(g) for g in goals])
+        if tr.abs_vars:
+            ra = S.prove(hy + list(tr.side), gl, timeout_s=min(timeout_s, 5.0), fallback=False)
+            if ra["status"] == "unsat":
+                return dict(status="proved", backend=ra["backend"] + "(term-abstracted)", seconds=time.time() - t0, detail="")
+    except Unsupported:
+        pass
     sp._sync_side()
+    goal = z3.And([sp.tr.bool(g) for g in goals])
     hyps = sp.hyps()
     r = S.prove(hyps, goal, timeout_s=timeout_s)
     if r["status"] == "unsat":
